@@ -350,9 +350,6 @@ class FormulaManager(object):
           - (Optionally) a mpq or mpz object
         """
         # TODO could this be improved by storing only the relative Fraction (or int maybe) in the real_constants dict?
-        if value in self.real_constants:
-            return self.real_constants[value]
-
         if is_pysmt_fraction(value):
             val = value
         elif isinstance(value, tuple):
@@ -363,6 +360,11 @@ class FormulaManager(object):
             raise PysmtTypeError("Invalid type in constant. The type was:" + \
                                  str(type(value)))
 
+        # The cache is consulted after the type of value has been checked:
+        # values of other types can be equal to a cached key (True == 1)
+        if value in self.real_constants:
+            return self.real_constants[value]
+
         n = self.create_node(node_type=op.REAL_CONSTANT,
                              args=tuple(),
                              payload=val)
@@ -371,9 +373,6 @@ class FormulaManager(object):
 
     def Int(self, value: int) -> FNode:
         """Return a constant of type INT."""
-        if value in self.int_constants:
-            return self.int_constants[value]
-
         if is_pysmt_integer(value):
             val = value
         elif is_python_integer(value):
@@ -381,6 +380,12 @@ class FormulaManager(object):
         else:
             raise PysmtTypeError("Invalid type in constant. The type was:" + \
                                  str(type(value)))
+
+        # The cache is consulted after the type of value has been checked:
+        # values of other types can be equal to a cached key (1.0 == 1)
+        if value in self.int_constants:
+            return self.int_constants[value]
+
         n = self.create_node(node_type=op.INT_CONSTANT,
                              args=tuple(),
                              payload=val)
